@@ -49,9 +49,12 @@ import NodisVerif.Proofs.C01Trace
         positive stop exclusive, start = stop counts one byte                     (`bitcount_*_finding`)
     F7  SET / GETSET / MSET on a non-string key: panic, Redis SET overwrites       (`set_wrong_type` + comment)
     F8  DECRBY k -2^63 on a missing key        : error reply, but the key now exists (`addInt_creates_key_finding`)
-    F10 a command that opens a missing key with `writeKey key newStr` and then does nothing
-        (SETRANGE k 0 "", SETBIT k -1, APPEND k "") leaves an empty never-filled string behind:
-        EXISTS 1, GET nil                                                            (`open_creates_key_finding`)
+    F10 SETRANGE k 0 "" and SETBIT k -1 on a missing key (commands that open the key with
+        `writeKey key newStr` and then write nothing) leave an empty string key behind: EXISTS 1,
+        GET ""; Redis creates nothing (SETBIT -1 is an error there). APPEND k "" also creates the
+        empty key, which IS what Redis does (`append_missing_get`)                  (`open_creates_key_finding`)
+    F12 GETSET on a missing key replies "" (the fresh string's empty, non-nil value), Redis nil
+                                                                                      (`getset_missing_finding`)
     F11 SET on the in-memory backend may change another key sharing the value object (`set_alias_witness`)
   (F6 "SETEX/PSETEX change the deadline before the wrong-type panic" and F9 "RENAME keeps the
    destination's old deadline" held for earlier snapshots of the model; the Go code was repaired and
@@ -366,10 +369,12 @@ theorem set_wrong_type (s : MState) (now : Int) (k v : Bytes) (keep : Bool) (v0 
   obtain ⟨h1, h2⟩ := set_wrongtype s now k v keep v0 hl ht
   exact ⟨h1, by rw [live_congr (h2 k), hl], logical_ext hs (set_sorted s now k v keep hs) h2⟩
 
-/-- GETSET: replies the old string (nil for a missing key or a never-filled string), then GET
-    returns the new value; the deadline is dropped -/
+/-- GETSET: replies the old string, then GET returns the new value; the deadline is dropped.
+    For a MISSING key the reply is the empty string, not nil (F12: the key is first created with an
+    empty non-nil value, and that is what is handed back). -/
 theorem getSet_get (s : MState) (now : Int) (k v : Bytes) (h : StringOrMissing s now k) :
-    (Api.getSet s now k v).2 = .bytes (match live s now k with | some (.str o) => some o | _ => none) ∧
+    (Api.getSet s now k v).2 =
+      .bytes (match live s now k with | some (.str o) => some o | some _ => none | none => some []) ∧
     (Api.get (Api.getSet s now k v).1 now k).2 = .bytes (some v) ∧
     liveExp (Api.getSet s now k v).1 now k = some 0 := by
   obtain ⟨h1, h2, h3⟩ := getSet_ok s now k v h
@@ -379,6 +384,12 @@ theorem getSet_get (s : MState) (now : Int) (k v : Bytes) (h : StringOrMissing s
   cases hl : live s now k with
   | none => rfl
   | some v0 => cases v0 <;> rfl
+
+/-- F12 witness: GETSET on a missing key replies "" where Redis replies nil -/
+theorem getset_missing_finding :
+    live ({} : MState) 0 [107] = none ∧
+    (match (Api.getSet {} 0 [107] [1]).2 with | .bytes (some []) => true | _ => false) = true ∧
+    (Spec.Str.step [] (.getset [107] [1])).2 = .nil := by decide
 
 /-- SETNX on a missing key stores the value (no deadline) and replies true; on an existing key of
     any type it replies false and changes nothing -/
@@ -438,6 +449,41 @@ theorem append_get (s : MState) (now : Int) (k data : Bytes) (h : StringOrMissin
   obtain ⟨a1, a2⟩ := append_agree (strOf (strAt s now k)) data
   refine ⟨by rw [h1, a2]; rfl, _, get_hot h2 (isStrVal_strVal _), ?_⟩
   rw [strOf_strVal, a1]; rfl
+
+/-- APPEND on a missing key creates the key holding exactly `data` — for empty `data` too (the
+    empty, non-nil string: GET replies "", as Redis does) -/
+theorem append_missing_get (s : MState) (now : Int) (k data : Bytes) (hl : live s now k = none) :
+    (Api.append s now k data).2 = .int (data.length : Nat) ∧
+    (Api.get (Api.append s now k data).1 now k).2 = .bytes (some data) ∧
+    live (Api.append s now k data).1 now k = some (.str data) := by
+  have hs : StringOrMissing s now k := by intro v0 h; rw [hl] at h; cases h
+  obtain ⟨h1, h2, _⟩ := append_ok s now k data hs
+  have e : strAt s now k = .str [] := by unfold strAt; rw [hl]; rfl
+  rw [e] at h1 h2
+  exact ⟨h1, get_hot h2 rfl, live_of_hot h2⟩
+
+/-- a string command never leaves a nil string behind: whatever SET / GETSET / SETNX / APPEND /
+    SETRANGE / SETBIT / INCR* store is a filled (`.str`) value, so GET on it is never nil -/
+theorem stored_value_is_filled (o : DsStr.S) (off : Int) (d : Bytes) (x : Bool) (b : Bytes) (ho : o = some b) :
+    (∃ r, (DsStr.append o d).1 = some r) ∧ (∃ r, (DsStr.setBit o off x).1 = some r) ∧
+    (∀ r, DsStr.setRange o off d = some r → ∃ w, r.1 = some w) := by
+  subst ho
+  refine ⟨⟨_, rfl⟩, ?_, ?_⟩
+  · unfold DsStr.setBit
+    split
+    · exact ⟨_, rfl⟩
+    · simp only
+      split <;> exact ⟨_, rfl⟩
+  · intro r hr
+    unfold DsStr.setRange at hr
+    split at hr
+    · cases hr; exact ⟨_, rfl⟩
+    · simp only at hr
+      split at hr
+      · cases hr
+      · split at hr
+        · cases hr
+        · cases hr; exact ⟨_, rfl⟩
 
 /-- SETRANGE / SETBIT through the API: reply and stored value are those of ds/str (section 2) -/
 theorem setRange_get (s : MState) (now : Int) (k : Bytes) (offset : Int) (data : Bytes) (h : StringOrMissing s now k)
@@ -603,21 +649,19 @@ theorem addInt_success (s : MState) (now : Int) (k : Bytes) (delta : Int) (neg :
   rw [get_hot h2 (isStrVal_strVal _), strOf_strVal]
 
 /-- F8. `DECRBY k -2^63` on a missing key: the reply is an error, yet the key exists afterwards
-    (as a never-filled string: TYPE string, EXISTS 1, GET nil) -/
+    (as an empty string: TYPE string, EXISTS 1, GET "") -/
 theorem addInt_creates_key_finding :
     live ({} : MState) 0 [107] = none ∧
     (match (Api.addInt {} 0 [107] int64Min true).2 with | .many [.int 0, .err true] => true | _ => false) = true ∧
-    live (Api.addInt {} 0 [107] int64Min true).1 0 [107] = some .strNil := by decide
+    live (Api.addInt {} 0 [107] int64Min true).1 0 [107] = some (.str []) := by decide
 
-/-- F10. SETRANGE k 0 "" / SETBIT k -1 1 / APPEND k "" on a missing key reply 0 and leave a
-    never-filled string object behind (EXISTS 1, TYPE string, GET nil); Redis creates nothing for
-    the first two and an empty string ("" not nil) for APPEND -/
+/-- F10. SETRANGE k 0 "" / SETBIT k -1 1 on a missing key reply 0 and leave an empty string key
+    behind (EXISTS 1, TYPE string, GET ""); Redis creates nothing (and rejects the negative offset) -/
 theorem open_creates_key_finding :
     live ({} : MState) 0 [107] = none ∧
-    live (Api.setRange {} 0 [107] 0 []).1 0 [107] = some .strNil ∧
-    live (Api.setBit {} 0 [107] (-1) true).1 0 [107] = some .strNil ∧
-    live (Api.append {} 0 [107] []).1 0 [107] = some .strNil ∧
-    (match (Api.get (Api.append {} 0 [107] []).1 0 [107]).2 with | .bytes none => true | _ => false) = true := by
+    live (Api.setRange {} 0 [107] 0 []).1 0 [107] = some (.str []) ∧
+    live (Api.setBit {} 0 [107] (-1) true).1 0 [107] = some (.str []) ∧
+    (Spec.Str.step [] (.setrange [107] 0 [])).1 = [] ∧ (Spec.Str.step [] (.setbit [107] (-1) true)).1 = [] := by
   decide
 
 example : live sDemo 0 [97] = some (.str [120, 0, 255]) ∧ isStrVal (.str [120, 0, 255]) = true ∧
@@ -836,8 +880,8 @@ theorem sorted_invariant (s : MState) (now : Int) (k : Bytes) (hs : IndexSorted 
   `Matches`: API result ↔ Redis reply (unit↔OK, nil slice↔nil, bytes↔bulk, int↔integer,
   bool↔0/1, (n, nil error)↔integer, (_, error)↔error reply).
   `SafeRun ks cmds`: every command, at the reference state it is issued in, lies outside the
-  finding regions F4/F8/F10 and the negative-offset deviations: APPEND with empty data only on an
-  existing key; SETRANGE with offset ≥ 0, offset+len an int64, growth ≤ 1 GiB, and empty data only
+  finding regions F4/F8/F10/F12 and the negative-offset deviations: GETSET only on an existing
+  key; SETRANGE with offset ≥ 0, offset+len an int64, growth ≤ 1 GiB, and empty data only
   on an existing key within its length; GETBIT/SETBIT offset ≥ 0; INCRBY/DECRBY delta an int64
   (DECRBY not −2^63). GETRANGE, BITCOUNT, RENAME, SETEX/PSETEX, KEYS, TYPE are not in the
   machine (GETRANGE / BITCOUNT because of F1–F3, F5; the others involve deadlines or non-string
@@ -878,12 +922,13 @@ example : (Spec.Str.run [] [.set [97] [1, 0, 255], .append [97] [2], .get [97], 
 /-- non-vacuity: a stream touching binary values, a counter, a missing key, DEL of two names -/
 example : SafeRun [] [.set [97] [1, 0, 255], .append [97] [2], .get [97], .setrange [97] 6 [9], .incrby [110] 5,
     .decrby [110] 7, .setbit [98] 9 true, .getbit [98] 9, .mset [([97], [3]), ([99], [])], .del [[97], [122]],
-    .exists_ [[97], [99], [99]]] := by
-  refine ⟨trivial, Or.inl (by decide), trivial, ⟨by decide, by decide, by decide, Or.inl (by decide)⟩,
-    ?_, ⟨by decide, by decide⟩, ?_, ?_, trivial, trivial, trivial, trivial⟩
+    .exists_ [[97], [99], [99]], .append [122] [], .getset [122] [7]] := by
+  refine ⟨trivial, trivial, trivial, ⟨by decide, by decide, by decide, Or.inl (by decide)⟩,
+    ?_, ⟨by decide, by decide⟩, ?_, ?_, trivial, trivial, trivial, trivial, ?_, trivial⟩
   · show inInt64 5 = true; decide
   · show (0 : Int) ≤ 9; decide
   · show (0 : Int) ≤ 9; decide
+  · show Keyspace.exists_ _ [122] = true; decide
 
 /-
   UNPROVED / not covered:
